@@ -201,10 +201,18 @@ def run(tier, seed):
                 for pv in (1, 100):
                     rec.case("swaps", (repr(lists), radix, latency, pv))
                     check_swaps(rec, "swaps", lists, radix, latency, pv)
+    # at scale: long coordinate lists and many consecutive fibers (batches of 12+ trace rows)
+    for _ in range(40 if tier == "quick" else 500):
+        k = rnd.choice([1, 2, 6, 12])
+        span = rnd.choice([20, 40, 90])
+        ps = [(sorted(rnd.sample(range(span), rnd.randint(0, min(span, 30)))), sorted(rnd.sample(range(span), rnd.randint(0, min(span, 30))))) for _q in range(k)]
+        rec.case("scale", repr(ps))
+        check_pairs(rec, "scale", ps)
     return rec.result("all pairs of coordinate lists over %d coordinates (empty, disjoint, interleaved, identical) through the real intersect_i traces; all "
                       "pairs of two consecutive fibers over 3 coordinates and seeded random 2-3 consecutive fibers over 6, fed fiber by fiber and in one "
                       "shot; swap counts for 2-5 sub-fibers, radices 2..5/inf, latencies 1,2,'N', two payload value sets; oracles: an independent "
-                      "two-finger merge / run count / k-way insertion merge of the raw coordinate lists" % n)
+                      "two-finger merge / run count / k-way insertion merge of the raw coordinate lists; plus seeded random lists at scale "
+                      "(up to 30 coordinates per fiber over a span of 90, up to 12 consecutive fibers)" % n)
 
 
 def replay(case):
